@@ -21,8 +21,8 @@ CallsU(s) == [i \in 1..Len(ScCalls(s)) |-> [ScCalls(s)[i] EXCEPT !.max = Unlimit
 Swallows(s) == \E n \in DOMAIN ScHost(s) : ScHost(s)[n].h = "call" /\ ScHost(s)[n].mode = "swallow"
 
 Init == /\ sc \in Scenarios
-        /\ mN = InitMachine(ScHeap0(sc), ScNames0(sc), <<>>)
-        /\ mU = InitMachine(ScHeap0(sc), ScNames0(sc), <<>>)
+        /\ mN = InitMachine(ScHeap0(sc), ScNames0(sc), <<>>, ScBound(sc))
+        /\ mU = InitMachine(ScHeap0(sc), ScNames0(sc), <<>>, ScBound(sc))
         /\ phase = "sync"
         /\ atLimit = [log |-> <<>>, heap |-> <<>>, names |-> <<>>]
         /\ hist = <<>>
@@ -132,4 +132,7 @@ Emit == phase # "done" \/
         PrintT(ToJson([sc |-> sc, calls |-> ScCalls(sc), names0 |-> ScNames0(sc), heap0 |-> ScHeap0(sc), host |-> ScHost(sc),
                        end |-> mN.ctl.t,
                        summary |-> [i \in 1..Len(mN.results) |-> [out |-> Outcome(mN.results[i]), ops |-> mN.results[i].ops]]]))
+\* the descriptor only (for models whose scenarios are re-rendered by the harness at another scale)
+EmitSc == phase # "done" \/ PrintT(ToJson([sc |-> sc, end |-> mN.ctl.t,
+                                           summary |-> [i \in 1..Len(mN.results) |-> [out |-> Outcome(mN.results[i]), ops |-> mN.results[i].ops]]]))
 =============================================================================
